@@ -209,28 +209,28 @@ MANIFEST_TEXT = {
     "C02": {
         "text": 'Lean: C02_chain (in every accepted program each statement has a numeric address, the first non-ORG statement sits at 0 and every non-ORG statement sta'
                 "rts at its predecessor's address + size), C02_telescope, C02_org_address / C02_org_final / C02_org_symbol (only ORG presets an address: its resolved o"
-                "perand), C02_image (image = concatenation of the statements' bytes), C02_symbols (labels are bound to the listing address of their statement, EQU symb"
-                'ols to their operand value), C02_duplicate_label; NEW C02_bytes_eq_size (Props/C02Size): EVERY statement of EVERY accepted program emits exactly `size'
-                '` bytes - instructions of every addressing mode, register lists, data directives, RMB, FCC, the directives that emit nothing - under the one hypothesi'
-                's that FCC characters are below 256 (C02_bytes_eq_size_ascii: implied by ASCII input; C02_fcc_wide_counterexample shows it is needed), hence C02_image'
-                "_exists and C02_offset_full: with no ORG after statement k, statement i's bytes sit at offset address(i) - address(k) of the image, with NO size hypot"
-                'hesis left. C02_Statement_false only through an ORG in mid-program (finding B1).',
+                "perand, a non-negative number), C02_image (image = concatenation of the statements' bytes), C02_symbols (labels are bound to the listing address of th"
+                'eir statement, EQU symbols to their operand value), C02_duplicate_label; C02_BytesEqSize_holds (Props/C02Size): EVERY statement of EVERY accepted prog'
+                'ram emits exactly `size` bytes, for every input - instructions of every addressing mode, register lists, data directives, RMB, FCC, the directives tha'
+                't emit nothing (the former FCC hypothesis is gone since fix 8b7d004: C02_strings_narrow); hence C02_image_exists and C02_offset_full: with no ORG afte'
+                "r statement k, statement i's bytes sit at offset address(i) - address(k) of the image. C02_Statement_false only through an ORG in mid-program (finding"
+                ' B1).',
         "design_ref": "DESIGN.md section 5 C02, section 6 B",
-        "note": "known finding B1 (a later ORG / code before ORG is accepted); 'byte count = size' is a theorem since fix 985348a",
+        "note": "known finding B1 (a later ORG / code before ORG is accepted); 'byte count = size' is a theorem since fixes 985348a / 8b7d004",
         "technique": "Lean 4 proof (address fold induction, frame lemmas for the later passes, symbol-table lemmas) + differential correspondence + listing re-computation oracle",
     },
     "C03": {
-        "text": "Lean: C03_diag_iff (a short branch is a diagnostic exactly when its target is out of -128..+127), C03_field / C03_bytes (the stored displacement is "
-                "the sum of the statement sizes between branch and target, negated backward), C03_branch (with no ORG in between: target address = address "
-                "+ size + sext(d8), resp. mod 65536 for long branches — by telescoping sizes into addresses), C03_pcr (a label,PCR operand stores target - "
-                "address - size as a signed distance mod 65536); C03_Statement_false (branch across an ORG). PCR WIDTH (Props/C03Width): C03_size_sound (the size "
-                "loop keeps size <= final size <= max_size), C03_pcr8_width (every statement settled on the 8-bit form has a plain label or label+-number as "
-                "offset, its distance d computed in Z without wrap satisfies -128 <= d <= 127 and the stored field is exactly d), C03_pcr_label (with no ORG "
-                "between statement and target the emitted field reaches the label's address, both widths) - the PCR clause of the full statement; "
-                "C03_pcr_org_counterexample shows the no-ORG hypothesis is necessary. Proving it refuted the statement five times first; each counterexample "
-                "was replayed on /repo and repaired (aafdc4b, 8dc2b21, 0293787, 95bb240, ec1693d/1477b47).",
+        "text": 'Lean: C03_diag_iff (a short branch is a diagnostic exactly when its target is out of -128..+127), C03_field / C03_bytes, C03_branch (with no ORG in be'
+                'tween: target address = address + size + sext(d8), resp. mod 65536 for long branches - by telescoping sizes into addresses), C03_branch_is_label / C03'
+                '_branch_nonlabel_rejected (a branch to a number or expression is a diagnostic); PCR: C03_pcr_clause - the PCR clause of the statement for EVERY accept'
+                "ed program, ORG or not: the emitted field of label,PCR / [label,PCR] / label+-c,PCR reaches the label's address (+ constant) from the next instruction"
+                ', both widths (fixOne computes from addresses; the 8-bit form is refused when a later ORG makes the distance too large, fix abbd512); C03_pcr8_in_rang'
+                "e / C03_pcr8_byte (every 8-bit PCR statement stores the two's complement byte of a displacement -128 <= d <= 127), C03_size_sound, C03_force_is_16 (th"
+                'e size loop), tight and regression witnesses. C03_Statement_false only through its branch clause across an ORG (finding B1: branch displacements are s'
+                'ums of sizes). One finding with witness: C03_pcr_plus_negative_finding (label+N,PCR with a NEGATIVE EQU N takes the magnitude), repaired in the next b'
+                'atch.',
         "design_ref": "DESIGN.md section 5 C03, section 6 B",
-        "note": "known findings B3, A9, B1 (branch or PCR reference across an ORG)",
+        "note": 'known finding B1 (branch across an ORG)',
         "technique": "Lean 4 proof (telescoping size sums to address differences; fixOne case analysis) + differential correspondence + decode-and-check-target oracle",
     },
     "C13": {
@@ -316,42 +316,45 @@ MANIFEST_TEXT = {
     "C01": {
         "text": 'Lean: (i) table_matches_datasheet / map_covered - the instruction table REGENERATED from /repo on every run agrees cell by cell (operation, addressing'
                 ' mode, size) with the datasheet opcode map, both directions, by kernel evaluation over all 150 rows; (ii) Encodes r o x = translate, then fit_operand_'
-                'width (fitWidth), then emit: the bytes are read back by the datasheet decoder as exactly that operation and operand, byte count = size; C01_partial pr'
-                'oves it for every non-pseudo row and the whole Region, for ALL operand values and ANY spelling hint: inherent; 8-/16-bit immediates incl. negatives; d'
-                'irect; extended; [extended indirect]; no-offset, auto inc/dec, accumulator forms for X Y U S and their indirect variants; 5/8/16-bit constant offsets '
-                'of either sign, direct and indirect, on every row; all 100 TFR/EXG pairs; push/pull lists; C01_partial_emitted lifts it to the fixAll step of any prog'
-                'ram (fixOne is the identity on label-free operands); C01_full_except_S: EVERY operand of the full-strength relation Intends is encoded unless it is a '
-                'push/pull list naming S - the gap to C01_Statement is exactly finding A10 (C01_Statement_false through PSHU S); the former findings are now *_fixed th'
-                'eorems on the same witnesses (LDD 100,X = EC 88 64; LDA #256 rejected; LDA [$10] = A6 9F 00 10 ...); (iii) C01_text_partial / C01_text_rendered (Props'
-                '/C01Text): the same from the OPERAND TEXT for every spelling family (decimal / $hex literals as immediates, direct, extended, <n, >n, >$hh, [indirect]'
-                '; ,R ,R+ ,R++ ,-R ,--R, A,R B,R D,R for X Y U S with [..] variants; decimal offsets of every width and sign) plus rejection theorems for out-of-range '
-                'immediates and forced-direct values. Symbols and expressions in operands are tied by the statement matrix rather than proved from text.',
+                'width (fitWidth), then emit: the bytes are read back by the datasheet decoder as exactly that operation and operand, byte count = size. C01_full : C01'
+                '_Statement - for EVERY non-pseudo row and EVERY operand of the full-strength relation Intends (inherent; 8-/16-bit immediates incl. negatives; direct;'
+                ' extended; [extended indirect]; no-offset, auto inc/dec, accumulator forms for X Y U S and their indirect variants; 5/8/16-bit constant offsets of eit'
+                'her sign, direct and indirect; numeric n,PCR and [n,PCR]; all TFR/EXG pairs; push/pull lists) the statement is encoded as written, for ALL operand val'
+                'ues and ANY spelling hint; C01_full_emitted lifts it to the fixAll step of any program; the former findings are *_fixed theorems on the same witnesses'
+                ' (LDD 100,X = EC 88 64; LDA #256 rejected; PSHU S = 36 40; LDA 0,PCR = A6 8C 00 ...); (iii) C01_text_partial / C01_text_rendered / C01_text_pcr_render'
+                'ed (Props/C01Text): the same from the OPERAND TEXT for every spelling family (decimal / $hex literals as immediates, direct, extended, <n, >n, >$hh, ['
+                'indirect]; ,R ,R+ ,R++ ,-R ,--R, A,R B,R D,R for X Y U S with [..] variants; decimal offsets of every width and sign; n,PCR) plus rejection theorems. '
+                'Intends speaks about numeric operands; label operands are C03 (label,PCR, branches) and finding C3; symbols and expressions are tied by the statement '
+                'matrix.',
         "design_ref": "DESIGN.md section 5 C01, section 6 A",
-        "note": 'known findings A9 (numeric n,PCR), A10 (register detection by substring), C3 (label as non-PCR index offset rejected); trusted: Spec/MC6809*.lean, Lean kernel, correspondence (statement matrix complete in the thorough tier, sampled in quick)',
+        "note": 'known finding C3 (a label as non-PCR index offset is rejected); trusted: Spec/MC6809*.lean, Lean kernel, correspondence (statement matrix complete in the thorough tier, sampled in quick)',
         "technique": "Lean 4 proof (kernel-evaluated table check + per-addressing-mode encode/decode theorems for all values) + differential correspondence + datasheet-decoder oracle",
     },
     "C12": {
-        "text": 'Lean: SoundEnc = accepted by translate AND fit_operand_width => the bytes of the fitted statement decode as one complete instruction of that mnemonic '
-                'consuming all bytes, count = size. C12_partial (soundness over the whole Region of C01, any spelling), C12_fitted_size (for EVERY non-pseudo non-speci'
-                "al statement with a numeric field that passes fitWidth the bytes number exactly pkg.size - the general form of 'no truncated or over-long instruction'"
-                "), C12_imm8/imm16/direct_out_of_range_rejected and C12_rejected_fit (values that cannot be represented in the operand's width are diagnostics), C12_re"
-                'jected; the former C12_finding_* are *_fixed; remaining witnesses C12_finding_push_S (A10) and C12_finding_numeric_pcr (A9). C12_Statement is stated o'
-                'ver the operands the front end builds (C12_unreachable_operand shows the all-records version fails only on records no source produces); it is neither '
-                'proved nor refuted in general - arbitrary operand text is covered by the correspondence (model = code on matrix, random programs, mutations, tricky st'
-                'rings) plus the decoder oracle on everything the implementation accepts.',
+        "text": 'Lean: C12_full : C12_Statement (Props/C12Full, Lemmas/EncodeShape) - for every machine-instruction row, EVERY operand text and every table of EQU cons'
+                'tants: the operand the front end builds (create_from_str cascade, then resolve_symbols), if translate and fit_operand_width accept it, emits exactly `'
+                'size` bytes that the datasheet decoder reads as ONE complete instruction of that mnemonic consuming all of them. Proved by a shape theorem for everyth'
+                'ing the front end can build (frontEnd_shape) and one soundness theorem per shape; the index-register text is validated since fix d1a841f, which makes '
+                "the case analysis finite. Rejections: C12_imm8/imm16/direct_out_of_range_rejected (values that cannot be represented in the operand's width), C12_unkn"
+                'own_index_register_rejected (5,Z 1,PC 5,y ,X+++), C12_own_stack_pointer_rejected (PSHS S, PSHU U), C12_unknown_register_rejected, C12_pcr_without_offs'
+                'et_rejected; C12_fitted_size (the size half for every statement of any program). One finding left with a witness: C12_finding_acc_autoincrement (LDA A'
+                ",X+ is accepted as A,X). Label operands (branches, label,PCR) are completed by the address pass and are C03's and C02's theorems; arbitrary text is ad"
+                'ditionally covered by the correspondence and the decoder oracle.',
         "design_ref": "DESIGN.md section 5 C12, section 6 A, H",
-        "note": 'known findings A9, A10; the grammar half (acceptance implies grammar-valid) is not proved: register detection by substring (A10) makes it false',
+        "note": 'finding C12_finding_acc_autoincrement is repaired in the next batch; trusted: Spec/MC6809*.lean, Lean kernel, correspondence',
         "technique": "Lean 4 proof (soundness dual of C01 on the proved region, refutation witnesses) + differential correspondence + datasheet-decoder oracle on accepted statements",
     },
     "C04": {
-        "text": 'Lean: resolve_add/sub/mul/div (numeric x numeric expressions evaluate to the arithmetic value; the result is an extended address when it exceeds 255 -'
-                ' resMode, fix 03f5b0d; division by zero and results above 65535 are errors), resolve_symbol_left/right and resolve_depends_only_on_lookup (EQU symbols'
-                " are replaced by their table value: definition order cannot matter), addrOffset_* (label +- constant and label +- label from the ADDRESSES, '-' reduce"
-                "d mod 65536, overflow and division by zero are diagnostics), C04_partial; the width per operand position is now C01's / C12's theorem (fit_operand_wid"
-                'th) instead of a finding; remaining findings with kernel-checked witnesses: C04_finding_negative_result_loses_sign, C04_finding_negative_equ (signs), '
-                'C04_finding_equ_expression (C4), C04_finding_label_index_offset (C3).',
+        "text": 'Lean: C04_full : C04_Statement - (numeric part) for operands of EITHER sign a two-term expression resolves to the arithmetic value of + - * and trunca'
+                'ting / (resolve_signed, resolve_symbols_signed), the result being an extended address above 255 (fix 03f5b0d) and a negative memory operand the extend'
+                'ed address mod 65536 (C04_negative_extended); division by zero and results above 65535 are errors; (symbol part) EQU symbols are replaced by their tab'
+                'le value whatever the definition order (resolve_symbol_left/right, resolve_depends_only_on_lookup); label arithmetic: addrOffset_* (label +- constant,'
+                " label +- label from the ADDRESSES, signed constants, '-' reduced mod 65536, overflow and division by zero are diagnostics); whole-program witnesses ("
+                "X EQU -5; LDX #X = 8E FF FB; symbol table $FFFB X). The width per operand position is C01's / C12's theorem. Remaining findings with kernel-checked wi"
+                'tnesses: C04_finding_equ_expression (C4), C04_finding_label_index_offset (C3), operand order ignored in label expressions (5-LABEL computed as LABEL-5'
+                ').',
         "design_ref": "DESIGN.md section 5 C04, section 6 C",
-        "note": 'known findings A9, A13 (negative results), C3, C4; trusted: Lean kernel, correspondence, decoder oracle',
+        "note": 'known findings C3, C4; the operand-order finding is repaired in the next batch; trusted: Lean kernel, correspondence, decoder oracle',
         "technique": "Lean 4 proof (expression evaluator and address-offset lemmas) + differential correspondence + arithmetic oracle on decoded operand values",
     },
     "C05": {
